@@ -1,5 +1,6 @@
 """C15 — Ising-to-generic sampler conversion preserves model and trajectory."""
 from checks import pure_fns
+from checks import api_cov
 LEAN_TARGETS = ["QmcProps.C15", "drv_c15"]
 BINS = ["c15"]
 
@@ -63,4 +64,5 @@ def main(ck):
         ck.notes.append("Gamma < 0: " + str(ck.stats.get("note_gamma_negative")))
     ck.assumptions.append("Gamma >= 0 (constructor domain of make_interaction; with Gamma < 0 the Ising sampler's own timestep panics in gen_bool)")
     ck.assumptions.append("trajectory theorem: h = 0 (|h| <= eps), RVB and heat-bath options off; it is a statement about the composition of the two timesteps out of shared update routines (Moves/Lawful), tied to the real code by the lock-step runs")
+    api_cov.run(ck, "c04")   # otherwise unexercised public API, model-free oracles of this property
     return ck.finish(RULE)
